@@ -147,6 +147,43 @@ fn main() {
                 std::process::exit(101);
             }
         }
+        "selector" => {
+            // a css selector nested <len> levels deep (variant 0: :not(, 1: :is(), evaluated by a buffering body filter
+            let variant: u32 = args.get(1).and_then(|s| s.parse().ok()).unwrap_or(0);
+            let len: usize = args.get(2).and_then(|s| s.parse().ok()).unwrap_or(0);
+            let stack_kib: usize = args.get(3).and_then(|s| s.parse().ok()).unwrap_or(2048);
+            let h = std::thread::Builder::new()
+                .stack_size(stack_kib * 1024)
+                .spawn(move || {
+                    use redirectionio::api::BodyFilter;
+                    use redirectionio::filter::FilterBodyAction;
+                    let open = if variant == 0 { ":not(" } else { ":is(" };
+                    let selector = format!("{}p{}", open.repeat(len), ")".repeat(len));
+                    let f: BodyFilter = serde_json::from_value(serde_json::json!({"action": "append_child", "value": "<i>x</i>", "inner_value": null, "element_tree": ["html", "body"], "css_selector": selector, "id": null, "target_hash": null})).unwrap();
+                    let mut fb = FilterBodyAction::new(vec![f], &[]);
+                    let mut out = fb.filter(b"<html><body><div>x</div></body></html>".to_vec(), None);
+                    out.extend(fb.end(None));
+                    std::hint::black_box(out);
+                })
+                .expect("spawn");
+            if h.join().is_err() {
+                eprintln!("panic in the selector probe");
+                std::process::exit(101);
+            }
+        }
+        "loginit" => {
+            // a host that initialises the loggers more than once (two modules, a reload) must survive it
+            let variant: u32 = args.get(1).and_then(|s| s.parse().ok()).unwrap_or(0);
+            let stderr = || unsafe { rio_verif::ffi::redirectionio_log_init_stderr() };
+            let callback = rio_verif::ffi::init_log_callback_raw;
+            match variant {
+                0 => { stderr(); stderr(); }
+                1 => { callback(); stderr(); }
+                2 => { stderr(); callback(); }
+                _ => { callback(); callback(); }
+            }
+            log::error!("still alive");
+        }
         "nested" => {
             let variant: u32 = args.get(1).and_then(|s| s.parse().ok()).unwrap_or(0);
             let len: usize = args.get(2).and_then(|s| s.parse().ok()).unwrap_or(0);
